@@ -1401,13 +1401,19 @@ class C09(Prop):
     gen_names = ["Coll"]
     trusted = ["google-re2 outside the fragment {literal, ., class, *, +, ?, |, concatenation, grouping, ^, $}",
                "Python `re` as the oracle's matcher on that fragment", "lark parsing of the rendered CEL text",
-               "CPython list/dict/str primitives (modelled, compared through correspondence)"]
+               "CPython list/dict/str primitives (modelled, compared through correspondence)",
+               "IEEE-754 binary64: Lean `Float` (opaque to the kernel) = CPython float, compared through correspondence"]
     rule = ("type-directed random programs (depth<=4) over int/uint/bool/string and lists/maps of them nested <=3: literals, index "
             "(in-range, boundary, negative, int64 extremes), map lookup/select/has, in, size, + concat, string functions, matches over "
             "generated regex trees and a list of invalid patterns, the five macros over lists and maps, &&, ||, !, ?:, arithmetic; each on both runners; "
             "closed law instances (in=exists, size(map)=size, filter subset, exists_one=count, startsWith/endsWith/size of concat, index errors); "
             "(regex,string) pairs against function_matches, rendered with minimal parentheses (bare `a|b`, `a|`, one operator among letters); "
-            "macros over index lists with errors before/between/after >= 2 matches; nested macros whose inner body reads the outer variable. non-trivial = distinct case on which the reference semantics gives a verdict and "
+            "macros over index lists with errors before/between/after >= 2 matches; nested macros whose inner body reads the outer variable; "
+            "round 2: element/value kinds double (NaN, +-inf, -0.0 included) and null, present keys bound to null (JSON-like data); programs over 1-3 variables "
+            "supplied by the evaluation context (built directly or through json_to_cel), macro variables that reuse a name in scope (a context variable, the "
+            "enclosing macro's variable) with the outer name used again after the inner macro; ONE object on both sides of `in` / `==` (a variable used twice, "
+            "an element taken from the list it is tested against, a macro variable ranging over the list; every NaN of an activation is the same object); "
+            "null in every position (select / index / has / in / macro bodies / branches). non-trivial = distinct case on which the reference semantics gives a verdict and "
             "which uses at least one list/map/string/macro operation")
 
     def generate(self, rng, tier):
